@@ -91,6 +91,7 @@ static void one_run(const std::string &prof, uint64_t seed, const JV *replay, Ag
   profile_make_cfg(prof, seed, cfg);
   std::vector<Step> plan;
   if (replay) {
+    if (const JV *cj = replay->get("cfg")) cfg.load(*cj);
     apply_overrides(cfg, replay->get("cfg_overrides"));
     const JV *st = replay->get("steps");
     if (!st || !plan_from_json(*st, plan)) { fprintf(stderr, "SIM-INFRA bad replay file\n"); exit(2); }
